@@ -11,7 +11,8 @@ Import ListNotations.
    [export] is the value the file binds to v at its top level ({% set v = '...' %}) *)
 (* IncludeOpt = {% include 'n' ignore missing %}: a template that is not found renders nothing *)
 Inductive item := Text (s : bytes) | Var (k : bytes) | Include (n : bytes) | Import (n : bytes) | IncludeOpt (n : bytes).
-Record content := { items : list item; export : bytes }.
+(* broken <> 0: the file's bytes do not compile (1: syntax error, 2: not decodable); items/export are then irrelevant *)
+Record content := { items : list item; export : bytes; broken : N }.
 
 (* ---------- file system: path -> content with its stat version ---------- *)
 (* f_ver stands for the stat tuple (ctime_ns, mtime_ns, ino, size) that version_for_file_path hashes,
@@ -74,8 +75,9 @@ Definition join_path (cfg : config) (template parent : bytes) : bytes :=
 Record entry := { e_content : content; e_ver : nat; e_mtime : nat }.   (* compiled template + what its callback captured *)
 Definition tcache := list (bytes * entry).                 (* keyed by template *name* *)
 
-Inductive res (A : Type) := Ok (a : A) | ENotFound | ETypeError | EFuel.
-Arguments Ok {A}. Arguments ENotFound {A}. Arguments ETypeError {A}. Arguments EFuel {A}.
+(* EBroken k: the file exists but cannot be turned into a template (k = 1 TemplateSyntaxError, 2 UnicodeDecodeError) *)
+Inductive res (A : Type) := Ok (a : A) | ENotFound | ETypeError | EFuel | EBroken (k : N).
+Arguments Ok {A}. Arguments ENotFound {A}. Arguments ETypeError {A}. Arguments EFuel {A}. Arguments EBroken {A}.
 
 Definition load (cfg : config) (fs : fsys) (c : tcache) (name : bytes) : tcache * res content :=
   match resolve cfg name with
@@ -83,7 +85,11 @@ Definition load (cfg : config) (fs : fsys) (c : tcache) (name : bytes) : tcache 
   | Some p =>
       match alookup fs p with
       | None => (c, ENotFound)
-      | Some f => (aset c name {| e_content := f_content f; e_ver := f_ver f; e_mtime := f_mtime f |}, Ok (f_content f))
+      | Some f =>
+          (* compiling happens before the cache is touched: a file that does not compile leaves the cache as it is *)
+          if (broken (f_content f) =? 0)%N
+          then (aset c name {| e_content := f_content f; e_ver := f_ver f; e_mtime := f_mtime f |}, Ok (f_content f))
+          else (c, EBroken (broken (f_content f)))
       end
   end.
 
@@ -132,7 +138,7 @@ Definition dict_update (d : ctx) (kv : bytes * bytes) : ctx :=
 Definition merge_ctx (caller base : ctx) : ctx := fold_left dict_update base caller.
 
 Definition map_ok {A B} (f : A -> B) (r : res A) : res B :=
-  match r with Ok a => Ok (f a) | ENotFound => ENotFound | ETypeError => ETypeError | EFuel => EFuel end.
+  match r with Ok a => Ok (f a) | ENotFound => ENotFound | ETypeError => ETypeError | EFuel => EFuel | EBroken k => EBroken k end.
 
 Section Items.
   Variable cfg : config.
@@ -156,6 +162,7 @@ Section Items.
               | (c1, ENotFound) => (c1, ENotFound)
               | (c1, ETypeError) => (c1, ETypeError)
               | (c1, EFuel) => (c1, EFuel)
+              | (c1, EBroken k) => (c1, EBroken k)
               end
           | Import n =>
               let name := join_path cfg n parent in
@@ -164,6 +171,7 @@ Section Items.
               | (c1, ENotFound) => (c1, ENotFound)
               | (c1, ETypeError) => (c1, ETypeError)
               | (c1, EFuel) => (c1, EFuel)
+              | (c1, EBroken k) => (c1, EBroken k)
               end
           | IncludeOpt n =>
               let name := join_path cfg n parent in
@@ -172,6 +180,7 @@ Section Items.
               | (c1, ENotFound) => (c1, Ok [])            (* only the lookup of THIS name is forgiven *)
               | (c1, ETypeError) => (c1, ETypeError)
               | (c1, EFuel) => (c1, EFuel)
+              | (c1, EBroken k) => (c1, EBroken k)
               end
           end in
         match r1 with
@@ -179,6 +188,7 @@ Section Items.
         | ENotFound => (c1, ENotFound)
         | ETypeError => (c1, ETypeError)
         | EFuel => (c1, EFuel)
+        | EBroken k => (c1, EBroken k)
         end
     end.
 End Items.
@@ -197,6 +207,7 @@ Definition render (fuel : nat) (cfg : config) (fs : fsys) (c : tcache) (name : b
   | (c1, ENotFound) => (c1, ENotFound)
   | (c1, ETypeError) => (c1, ETypeError)
   | (c1, EFuel) => (c1, EFuel)
+  | (c1, EBroken k) => (c1, EBroken k)
   end.
 
 (* ---------- histories ---------- *)
@@ -240,7 +251,10 @@ Fixpoint run_fresh (fuel : nat) (cfg : config) (st : est) (h : list step) : list
 Definition spec_get (cfg : config) (fs : fsys) (name : bytes) : res content :=
   match resolve cfg name with
   | None => ENotFound
-  | Some p => match alookup fs p with Some f => Ok (f_content f) | None => ENotFound end
+  | Some p => match alookup fs p with
+              | Some f => if (broken (f_content f) =? 0)%N then Ok (f_content f) else EBroken (broken (f_content f))
+              | None => ENotFound
+              end
   end.
 
 Section SpecItems.
@@ -259,18 +273,18 @@ Section SpecItems.
           | Include n => let name := join_path cfg n parent in
                          match spec_get cfg fs name with
                          | Ok ct => rec name ct
-                         | ENotFound => ENotFound | ETypeError => ETypeError | EFuel => EFuel
+                         | ENotFound => ENotFound | ETypeError => ETypeError | EFuel => EFuel | EBroken k => EBroken k
                          end
           | Import n => map_ok export (spec_get cfg fs (join_path cfg n parent))
           | IncludeOpt n => let name := join_path cfg n parent in
                             match spec_get cfg fs name with
                             | Ok ct => rec name ct
-                            | ENotFound => Ok [] | ETypeError => ETypeError | EFuel => EFuel
+                            | ENotFound => Ok [] | ETypeError => ETypeError | EFuel => EFuel | EBroken k => EBroken k
                             end
           end in
         match r1 with
         | Ok s1 => map_ok (app s1) (spec_items parent r)
-        | ENotFound => ENotFound | ETypeError => ETypeError | EFuel => EFuel
+        | ENotFound => ENotFound | ETypeError => ETypeError | EFuel => EFuel | EBroken k => EBroken k
         end
     end.
 End SpecItems.
@@ -284,7 +298,7 @@ Fixpoint spec_tpl (fuel : nat) (cfg : config) (fs : fsys) (x : ctx) (name : byte
 Definition spec_render (fuel : nat) (cfg : config) (fs : fsys) (name : bytes) (caller : ctx) : res bytes :=
   match spec_get cfg fs name with
   | Ok ct => spec_tpl fuel cfg fs (merge_ctx caller (base_ctx cfg)) name ct
-  | ENotFound => ENotFound | ETypeError => ETypeError | EFuel => EFuel
+  | ENotFound => ENotFound | ETypeError => ETypeError | EFuel => EFuel | EBroken k => EBroken k
   end.
 
 (* the renders of a history as the cache-free specification gives them *)
